@@ -26,7 +26,7 @@ RULE = ("cases = random histories (as C06: 30% select -> write-to-source -> read
         "intermediate arrays, incl. writes through the numpy array an array was constructed over) x random insertion of 1..6 "
         "read-only operations of 12 kinds on arbitrary live arrays at arbitrary positions; every case runs the history twice on real "
         "objects (with / without the extra reads); distinct = distinct (history, insertions); non-trivial = history contains an "
-        "assignment and a selection; plus families for float / mask aliases, printing, per-row windows, repeats after allocations, and the same row-wise reduction on unrelated arrays of other element types earlier in the process (every result against numpy row by row); np.unique is a program statement and some arrays have no row of more than one cell")
+        "assignment and a selection; plus families for float / mask aliases, printing, per-row windows, repeats after allocations, and the same row-wise reduction on unrelated arrays of other element types earlier in the process (every result against numpy row by row); np.unique is a program statement and some arrays have no row of more than one cell; result ownership: for 24 read-only operations on sources of every shape, a write into the source leaves the result as it was and vice versa")
 EXHAUSTIVE = {"quick": False, "thorough": False}
 CORRESPONDENCE_ONLY = ["the implementation's internal materialisation on read (ravel / _flatten_myself)"]
 ASSUMPTIONS = []
